@@ -117,15 +117,17 @@ impl<'b, 'tx> BucketName<'b, 'tx> {
     }
 }
 
+// The name may point into the memory map, which is only guaranteed to stay mapped for as long as
+// the transaction ('b) is alive, so bytes that are allowed to live for 'tx have to be a copy.
 impl<'b, 'tx> ToBytes<'tx> for BucketName<'b, 'tx> {
     fn to_bytes(self) -> Bytes<'tx> {
-        self.name
+        Bytes::Bytes(bytes::Bytes::copy_from_slice(self.name.as_ref()))
     }
 }
 
 impl<'b, 'tx> ToBytes<'tx> for &BucketName<'b, 'tx> {
     fn to_bytes(self) -> Bytes<'tx> {
-        self.name.clone()
+        Bytes::Bytes(bytes::Bytes::copy_from_slice(self.name.as_ref()))
     }
 }
 
